@@ -1,35 +1,51 @@
 /-
   C16 — collective key switching, share conversion and refresh preserve the message.
 
-  Theorems about the definitions of `Lattigo/Model/MPSwitch.lean` (executed by the driver on `RPoly`),
-  for every commutative ring `α`, any number of parties and any aggregation tree `t`
-  (parties = leaves of `t`; `t.eval (· + ·) s` is the ideal secret `Σ s_i`; by `C14.agg_perm` the
-  aggregate does not depend on the tree).
+  Theorems about the definitions of `Lattigo/Model/MPSwitch.lean` (executed by the driver on `RPoly`); parties are
+  the leaves of the aggregation tree `t` (`C14.agg_perm`: the aggregate does not depend on the tree).
 
-  Gaps (stated, not hidden):
-    * `RPoly` is not proved here to be the commutative ring `Z_Q[X]/(X^N+1)` (C01); the ties check the
-      model against the real shares / ciphertexts.
-    * The plaintext-space maps are not ring maps of `R_Q`: for BGV the passage `R_Q → R_t` is the
-      coefficient-wise `q2tCoeff`, characterised by `q2t_centred` (centred representative modulo Q, then
-      modulo t) — the step from the ring-level identity `e2s_masked` to "the additive shares sum to the
-      message exactly modulo t" is `e2s_sum_mod_t` on ONE coefficient (the CRT/coefficient extraction of
-      `RPoly` is not formalised); for CKKS the rescaling of the shares is characterised by
-      `rescale_err` (less than one unit per share).  Norm bounds on the error terms are measured by the
-      probes against explicit bounds, not proved.
-    * `transform_spec` is for additive maps `T` of the carrier; the Decode/Encode flags of the real
-      transform (NTT over Z_t, big-float FFT) are exercised by the probes only.
+  PROVED FOR ALL INPUTS
+    * generic carrier (every commutative ring): `cks_collective`, `cks_phase`, `cks_decrypt`, `cks_agg_ok`,
+      `cks_level_mismatch_rejected`, `cks_below_level_panics`; `pcks_phase`, `pcks_zero_noise(_noP)`; `e2s_masked`,
+      `s2e_phase`, `e2s_s2e_id`; `transform_spec` (any additive map of the carrier), `refresh_spec`;
+      `smudge_in_*_share` (the smudging error enters additively and unscaled).
+    * on `RPoly` with well-formed inputs (`Props/C16Ring.lean`): the `_rpoly` versions of all of the above.
+    * error SIZES over `Z[X]/(X^N+1)` (`Props/C16Noise.lean`): `cks_noise_bound(_P)`, `pcks_noise_bound(_noP)`,
+      `refresh_noise_bound`; BGV exactness modulo `t` on EVERY coefficient: `e2s_sum_mod_t_all`,
+      `e2s_sum_mod_t_poly`, `e2s_sum_mod_t_parties` (from `q2t_centred`, `e2s_sum_mod_t` here).
+    * plaintext spaces and levels (integers): `q2t_centred`, `e2s_sum_mod_t`; `rescale_err`,
+      `ckks_refresh_rescale` (CKKS refresh on one coefficient, end to end: < 1 unit per rescaling);
+      `min_level_spec`, `centred_masks_no_wrap`, `no_wrap_at_min_level`, `noWrapAtMinLevel_sound`
+      (GetMinimumLevelForRefresh ⇒ EncToShare does not wrap, every party count, under the explicit slack condition);
+      `transform_flags`, `transform_flags_refresh` (all four Decode/Encode combinations, additive maps of the
+      plaintext space).
+  UNDER A NAMED HYPOTHESIS: `transform_flags` assumes the decoder, encoder and user function additive (the real BGV
+  `DecodeRingT/EncodeRingT` and the CKKS FFT are linear maps — C07's subject, not proved here; a non-additive
+  user function breaks the protocol, example in §8); `pcks_zero_noise` takes the centred residues `d0, d1` as given
+  (that `centredLiftP` makes the bracket divisible by P is C02 arithmetic).
+  TIED ONLY: `ringT2Q`/`ringQ2T` on `RPoly` (CRT extraction), `centredLiftP`/`pinvPoly` (division by P in
+  `pcks_share`), `ofBigints`/`toBigints`, the twin replay of noise and masks, the transformed masks (the harness
+  replays the real encoders and passes the graph of the user function).
+  PROBED ONLY: decryption of the switched / refreshed ciphertexts by the real Decryptor/Encoder (`cks_decrypts`,
+  `pcks_decrypts`, `e2s_sum`, `e2s_s2e_id`, `refresh_roundtrip`, `transform_applies_f`, against bounds that
+  dominate the C16Noise theorems), `smudging_present`, `mask_range`/`mask_distribution`, receiver levels,
+  `refused_call_keeps_receiver`.
+  NOT COVERED: the composition "ring identity on `RPoly` + norm bound on `ZPoly`" as ONE statement (the two carriers
+  are related only through `RPoly.crt`, not formalised); refresh between different ring degrees; the float64
+  precision of the CKKS transform (labelled "within precision" in the probes).
 
-  Defects found through this property and repaired in /repo (fixes/C16-*.diff; API-level, exhibited by
-  probes, the model being unaffected except for the scale used by the BGV transform):
+  Defects found through this property and repaired in /repo (fixes/C16-*.diff):
     * PublicKeySwitchProtocol.AggregateShares compared share1 with itself     (probe level_mismatch)
     * refresh AggregateShares (mpbgv, mpckks) did not set shareOut.MetaData    (probe refresh_agg_fresh_receiver)
     * mpbgv Transform used the output's scale and did not set the output MetaData
-                                                    (probes refresh_roundtrip / transform_applies_f, fresh output)
     * mpckks masked transform failed for prec ≤ 53 with Decode/Encode         (probe transform_prec)
+    * GetMinimumLevelForRefresh compared float64 logarithms                   (probe min_level_exact, `min_level_spec`)
 -/
 import Lattigo.Proofs.MPSwitch
 import Lattigo.Props.C16Ring
 import Lattigo.Props.C16Noise
+import Mathlib.Data.ZMod.Basic
+import Mathlib.Tactic.Abel
 
 namespace Lattigo.Props.C16
 open Lattigo.MP
@@ -299,8 +315,129 @@ example : ¬ (2 * |(1 : Int) - [7, 7, 7, 7].sum| < 33) := by decide
 
 example : noWrapAtMinLevel 2 2 4 [37, 41] 1 = some (0, 3, true) := by decide +kernel
 
+/-! ## 8. Closing the loop: minimum level ⇒ no wrap; refresh end to end on one coefficient; transform flags -/
+
+/-- **no_wrap_at_min_level (all party counts).**  At the level `L` returned by `GetMinimumLevelForRefresh` (exact
+    model `minLevelForRefresh`), with `nParties` masks in the documented centred range
+    `[−2^(logBound−1), 2^(logBound−1))` and a plaintext coefficient `|m| ≤ B`, the masked plaintext
+    `m − Σ M_i` does not wrap modulo `Q_L` as soon as the SLACK `Q_L − nParties·2^logBound` (which is `≥ 0` by
+    `min_level_spec`) exceeds `2B`.  Nothing else is needed: in particular every `nParties ≥ 1`, power of two or not. -/
+theorem no_wrap_at_min_level (lambda scale nParties : Nat) (moduli : List Nat) (L lb : Nat)
+    (h : minLevelForRefresh lambda scale nParties moduli = some ((L : Int), lb)) (hlb : 1 ≤ lb)
+    (masks : List Int) (hn : masks.length = nParties)
+    (hM : ∀ M ∈ masks, -(2 ^ (lb - 1) : Int) ≤ M ∧ M < 2 ^ (lb - 1))
+    (m B : Int) (hm : |m| ≤ B)
+    (hslack : (nParties : Int) * 2 ^ lb + 2 * B < ((moduli.take (L + 1)).prod : Nat)) :
+    (nParties : Int) * 2 ^ lb ≤ ((moduli.take (L + 1)).prod : Nat) ∧
+    2 * |m - masks.sum| < ((moduli.take (L + 1)).prod : Nat) := by
+  obtain ⟨_, hq, _⟩ := min_level_spec lambda scale nParties moduli L lb h
+  refine ⟨by exact_mod_cast hq, ?_⟩
+  apply centred_masks_no_wrap _ (2 ^ (lb - 1)) B m masks _ hm
+  · have h2 : (2 : Int) ^ lb = 2 * 2 ^ (lb - 1) := by
+      obtain ⟨k, rfl⟩ : ∃ k, lb = k + 1 := ⟨lb - 1, by omega⟩
+      simp [pow_succ, mul_comm]
+    rw [hn]
+    rw [h2] at hslack
+    linarith
+  · intro M hMm
+    obtain ⟨h1, h2⟩ := hM M hMm
+    exact abs_le.mpr ⟨h1, le_of_lt h2⟩
+
+theorem foldl_mul_eq_prod (l : List Nat) (a : Nat) : l.foldl (· * ·) a = a * l.prod := by
+  induction l generalizing a with
+  | nil => simp
+  | cons x xs ih => simp [List.foldl_cons, ih, Nat.mul_assoc]
+
+/-- the predicate the driver computes (`ckks_nowrap`, tied to the harness) is this condition with `B = 2^msgBits`:
+    when it answers `true`, EncToShare at the minimum level does not wrap, for every admissible mask vector -/
+theorem noWrapAtMinLevel_sound (lambda scale nParties : Nat) (moduli : List Nat) (msgBits L lb : Nat)
+    (h : noWrapAtMinLevel lambda scale nParties moduli msgBits = some ((L : Int), lb, true)) (hlb : 1 ≤ lb)
+    (masks : List Int) (hn : masks.length = nParties)
+    (hM : ∀ M ∈ masks, -(2 ^ (lb - 1) : Int) ≤ M ∧ M < 2 ^ (lb - 1))
+    (m : Int) (hm : |m| ≤ 2 ^ msgBits) :
+    2 * |m - masks.sum| < ((moduli.take (L + 1)).prod : Nat) := by
+  unfold noWrapAtMinLevel at h
+  split at h
+  · simp at h
+  · rename_i ml lb' hml
+    simp only [Option.some.injEq, Prod.mk.injEq, decide_eq_true_eq] at h
+    obtain ⟨rfl, rfl, hdec⟩ := h
+    have hq : (moduli.take ((L : Int) + 1).toNat).foldl (· * ·) 1 = (moduli.take (L + 1)).prod := by
+      rw [foldl_mul_eq_prod, Nat.one_mul]; rfl
+    rw [hq] at hdec
+    refine (no_wrap_at_min_level lambda scale nParties moduli L lb' hml hlb masks hn hM m (2 ^ msgBits) hm ?_).2
+    have h2 : (2 : Int) ^ lb' = 2 * 2 ^ (lb' - 1) := by
+      obtain ⟨k, rfl⟩ : ∃ k, lb' = k + 1 := ⟨lb' - 1, by omega⟩
+      simp [pow_succ, mul_comm]
+    generalize (moduli.take (L + 1)).prod = Qn at hdec ⊢
+    have : ((2 * (nParties * 2 ^ (lb' - 1) + 2 ^ msgBits) : Nat) : Int) < (Qn : Int) := by
+      exact_mod_cast hdec
+    push_cast at this
+    rw [h2]; linarith
+
+/-- four parties, 3-bit masks, `Q_0 = 37`: admissible masks never wrap a message `|m| ≤ 2` -/
+example : 2 * |(2 : Int) - [-4, 3, -4, -4].sum| < 37 :=
+  noWrapAtMinLevel_sound 2 2 4 [37, 41] 1 0 3 (by decide +kernel) (by decide) _ rfl (by decide) 2 (by decide)
+
+/-- **CKKS refresh on one coefficient, end to end.**  The finaliser rescales the masked value `m − Σ M_i`, every party
+    rescales its own mask; the re-assembled coefficient `⌊(m − ΣM_i)·Δout/Δin⌋ + Σ ⌊M_i·Δout/Δin⌋` differs from
+    `m·Δout/Δin` by less than one unit per rescaling (`n + 1` of them), whatever the masks. -/
+theorem ckks_refresh_rescale (D S : Int) (hS : 0 < S) (m : Int) (masks : List Int) :
+    |S * ((rescaleMask D S [m - masks.sum]).sum + (rescaleMask D S masks).sum) - D * m| ≤ (masks.length + 1) * S := by
+  have h := rescale_err D S hS ((m - masks.sum) :: masks)
+  simp only [rescaleMask, List.map_cons, List.map_nil, List.sum_cons, List.sum_nil, List.length_cons, add_zero] at h ⊢
+  have e : m - masks.sum + masks.sum = m := by ring
+  rw [e] at h
+  push_cast at h
+  exact h
+
+example : |(3 : Int) * ((rescaleMask 8 3 [10 - [7, -9].sum]).sum + (rescaleMask 8 3 [7, -9]).sum) - 8 * 10| ≤ 3 * 3 := by
+  decide
+
+/-- the map a masked transform applies in the plaintext space, for the four `Decode`/`Encode` flag combinations:
+    `Encode? ∘ f ∘ Decode?` -/
+def flagsMap {M : Type} [AddCommGroup M] (dec enc : Bool) (D E F : M →+ M) : M →+ M :=
+  (if enc then E else AddMonoidHom.id M).comp (F.comp (if dec then D else AddMonoidHom.id M))
+
+/-- **transform_flags (all four combinations).**  In the plaintext space (any additive commutative group `M`: `R_t` for
+    BGV, the integer / big-float vectors for CKKS), with additive decoding `D`, encoding `E` and user function `F`:
+    the finaliser's `T(m − Σ M_i)` plus the parties' `Σ T(M_i)` is `T(m)` for `T = Encode? ∘ F ∘ Decode?`, whichever
+    flags are set.  With `transform_spec` (ring level) this is `transform_applies_f`.  (That the real encoders are
+    additive is C07's subject; an `F` that is not additive breaks the protocol: see the example below.) -/
+theorem transform_flags {M : Type} [AddCommGroup M] (dec enc : Bool) (D E F : M →+ M) (m : M) (masks : List M) :
+    flagsMap dec enc D E F (m - masks.sum) + (masks.map (flagsMap dec enc D E F)).sum = flagsMap dec enc D E F m := by
+  have hs : (masks.map (flagsMap dec enc D E F)).sum = flagsMap dec enc D E F masks.sum := by
+    induction masks with
+    | nil => simp
+    | cons x xs ih => simp [ih]
+  rw [hs, ← map_add]; congr 1; abel
+
+/-- decode-then-encode with `E ∘ D = id` and the identity function is the refresh, for both flags set -/
+theorem transform_flags_refresh {M : Type} [AddCommGroup M] (D E : M →+ M) (hED : ∀ x, E (D x) = x) (m : M)
+    (masks : List M) :
+    flagsMap true true D E (AddMonoidHom.id M) (m - masks.sum)
+      + (masks.map (flagsMap true true D E (AddMonoidHom.id M))).sum = m := by
+  rw [transform_flags]; simp [flagsMap, hED]
+
+/-- instance in `Z_97`: decoding = multiplication by 3, encoding = by 65 = 3⁻¹, `f` = doubling; all four flag pairs -/
+example : ∀ dec enc : Bool,
+    flagsMap dec enc (AddMonoidHom.mulLeft (3 : ZMod 97)) (AddMonoidHom.mulLeft 65) (AddMonoidHom.mulLeft 2)
+        ((10 : ZMod 97) - [5, 80].sum)
+      + ([5, 80].map (flagsMap dec enc (AddMonoidHom.mulLeft (3 : ZMod 97)) (AddMonoidHom.mulLeft 65)
+          (AddMonoidHom.mulLeft 2))).sum
+    = flagsMap dec enc (AddMonoidHom.mulLeft (3 : ZMod 97)) (AddMonoidHom.mulLeft 65) (AddMonoidHom.mulLeft 2) 10 :=
+  fun dec enc => transform_flags dec enc _ _ _ _ _
+
+/-- a function that is not additive (squaring in `Z_97`) does NOT commute with the masking -/
+example : ((10 : ZMod 97) - (5 + 80)) ^ 2 + ((5 : ZMod 97) ^ 2 + 80 ^ 2) ≠ 10 ^ 2 := by decide
+
 end Lattigo.Props.C16
 
+#print axioms Lattigo.Props.C16.no_wrap_at_min_level
+#print axioms Lattigo.Props.C16.noWrapAtMinLevel_sound
+#print axioms Lattigo.Props.C16.ckks_refresh_rescale
+#print axioms Lattigo.Props.C16.transform_flags
+#print axioms Lattigo.Props.C16.transform_flags_refresh
 #print axioms Lattigo.Props.C16.centred_masks_no_wrap
 #print axioms Lattigo.Props.C16.min_level_spec
 #print axioms Lattigo.Props.C16.cks_collective
